@@ -244,3 +244,65 @@ def ceval(t, env):
         if t[1] == "Div" and y != 0.0:
             return x / y
     raise NotAnalysable("unsupported float node %r" % (t[:2],))
+
+
+# ---------------------------------------------------------------------------------------------------------------------
+# Non-linear trees (sin): value interval, absolute rounding error and Lipschitz constant w.r.t. the float input leaves.
+
+SIN_EPS = Q(1, 2 ** 50)  # assumed absolute accuracy of the platform's sin() on the analysed range (|sin| <= 1: 4 ulps of 1)
+
+
+class IV:
+    __slots__ = ("lo", "hi", "err", "lip")
+
+    def __init__(self, lo, hi, err, lip):
+        self.lo, self.hi, self.err, self.lip = Q(lo), Q(hi), Q(err), Q(lip)
+
+    @property
+    def mag(self):
+        return max(abs(self.lo), abs(self.hi))
+
+    @property
+    def cmag(self):
+        return self.mag + self.err
+
+
+def analyse_iv(t, leaf, memo=None):
+    """t: float tree whose non-constant leaves are ("sym", name) inputs; leaf: name -> (lo, hi) (an exact input double in that range).
+    -> IV(value interval of the real function, bound on |computed - real|, bound on |d real / d input|)."""
+    if memo is None:
+        memo = {}
+    if id(t) in memo:
+        return memo[id(t)]
+    k = t[0]
+    if k == "c":
+        if not isinstance(t[1], float) or not math.isfinite(t[1]):
+            raise NotAnalysable("non-finite constant %r" % (t[1],))
+        r = IV(Q(t[1]), Q(t[1]), 0, 0)
+    elif k == "sym":
+        if t[1] not in leaf:
+            raise NotAnalysable("no range for the input %r" % (t[1],))
+        r = IV(leaf[t[1]][0], leaf[t[1]][1], 0, 1)
+    elif k == "op1" and t[1] == "neg":
+        a = analyse_iv(t[2], leaf, memo)
+        r = IV(-a.hi, -a.lo, a.err, a.lip)
+    elif k == "op1" and t[1] in ("sin", "cos"):
+        a = analyse_iv(t[2], leaf, memo)
+        r = IV(-1, 1, a.err + SIN_EPS, a.lip)
+    elif k == "op" and t[1] in ("Add", "Sub"):
+        a, b = analyse_iv(t[2], leaf, memo), analyse_iv(t[3], leaf, memo)
+        lo, hi = (a.lo + b.lo, a.hi + b.hi) if t[1] == "Add" else (a.lo - b.hi, a.hi - b.lo)
+        inh = a.err + b.err
+        r = IV(lo, hi, inh + U * (max(abs(lo), abs(hi)) + inh), a.lip + b.lip)
+    elif k == "op" and t[1] == "Mul":
+        a, b = analyse_iv(t[2], leaf, memo), analyse_iv(t[3], leaf, memo)
+        ps = [x * y for x in (a.lo, a.hi) for y in (b.lo, b.hi)]
+        lo, hi = min(ps), max(ps)
+        inh = a.mag * b.err + b.mag * a.err + a.err * b.err
+        r = IV(lo, hi, inh + U * (max(abs(lo), abs(hi)) + inh) + ETA, a.lip * b.mag + b.lip * a.mag)
+    else:
+        raise NotAnalysable("unsupported float node %r" % (t[:2],))
+    if r.cmag > F64_MAX:
+        raise NotAnalysable("node may overflow: %r" % (t[:2],))
+    memo[id(t)] = r
+    return r
